@@ -17,11 +17,15 @@ def rnd_image(rnd, n):
     return [rnd.randint(0, 255) for _ in range(n)]
 
 
-def mbase(rnd, msize=200):
-    """harness-level: present the medium to the library at a high base address (straddling 2^16 / 2^31, ending at 2^32 - 1)"""
-    if rnd.random() < 0.5:
+def mbase(rnd, cfgline):
+    """harness-level: present the medium to the library at a high base address: straddling 2^16 / 2^31, the whole medium
+    just below 2^32, or the region's last octet being address 0xFFFFFFFF (the guard octets behind it then wrap to 0, 1, ...)"""
+    if rnd.random() < 0.4:
         return []
-    b = rnd.choice([0xFFFFFFFF - msize, 0x80000000 - msize // 2, 0x10000 - msize // 2, 0x7FFFFFFF - msize, rnd.getrandbits(31)])
+    f = cfgline.split()
+    msize, place, n, alg = int(f[1]), int(f[2]), int(f[3]), int(f[4])
+    regend = place + (4 if alg == 3 else 2) + n
+    b = rnd.choice([0x100000000 - regend, 0x100000000 - regend, 0xFFFFFFFF - msize, 0x80000000 - msize // 2, 0x10000 - msize // 2, 0x7FFFFFFF - msize, rnd.getrandbits(31)])
     return ['mbase %d %d' % (b >> 16, b & 0xFFFF)]
 
 
@@ -33,7 +37,8 @@ def histories(rnd, count, nops, maxn):
         place = rnd.choice([0, 1, 7, 100])
         aux = rnd.choice([9999, 0, 1, 2, 3, n - 1 if n > 1 else 1, n, n + 1, rnd.randint(0, n + 1)])
         msize = place + width + n + 3
-        sc = mbase(rnd, msize) + ['cfg %d %d %d %d %d' % (msize, place, n, alg, aux)]
+        c = 'cfg %d %d %d %d %d' % (msize, place, n, alg, aux)
+        sc = mbase(rnd, c) + [c]
         for _ in range(nops):
             r = rnd.random()
             if r < 0.25:
@@ -70,7 +75,7 @@ def run(tier):
     quick = tier != 'thorough'
     vf.graph_flow(v, 'Persistent.tla', 'PersistentMCq.cfg' if quick else 'PersistentMC.cfg', 'persist', 'ps',
                   depth=3 if quick else 4, budget=60000 if quick else 1500000, walks=300 if quick else 3000, walklen=40,
-                  nontrivial=lambda u, evl, post: u != post or evl.startswith(('validate', 'fetch')), heap='16g', prefix=lambda r: mbase(r, 40))
+                  nontrivial=lambda u, evl, post: u != post or evl.startswith(('validate', 'fetch')), heap='16g', prefix=lambda r, w: mbase(r, w[0]) if w and w[0].startswith('cfg') else [])
     rnd = random.Random(vf.seed())
     vf.trace_flow(v, 'PersistentTrace.tla', 'PersistentTrace.cfg', 'persist',
                   histories(rnd, 64 if quick else 480, 60 if quick else 150, 120 if quick else 300), 'pstrace')
